@@ -252,6 +252,10 @@ func ExtractFactoryReference(err error) Factory {
 		return nil
 	}
 	embedded := gerr._embededGError()
+	if embedded == nil {
+		// a value that embeds a nil *GError (struct{ *GError }{}) implements Error by promotion.
+		return nil
+	}
 	if embedded.isFactory {
 		return embedded
 	}
